@@ -32,7 +32,7 @@ CHECKS = {
     'C14': {
         'engine': 'simdev',
         'technique': 'deterministic simulation with fault injection: seeded loop() schedules x scripted reference-clock faults, lock-step spec state machine + control clock, bounded liveness after faults stop',
-        'text': 'Seeded search over loop() schedules (dense, sparse, jumps to deadlines +/-2 ms) x per-request reference-clock faults (lost, invalid, late, jump, same value, instant, stale datagram, ready-at-timeout race) x 5x5x5 period configurations x reference==backup / distinct / absent, reboots; the real SystemClockLoop is checked call by call against the A.2 spec machine and a control clock, then a fault-free drain must reach a successful sync within the back-off bound.',
+        'text': 'Seeded search over loop() schedules (dense, sparse, jumps to deadlines +/-2 ms) x per-request reference-clock faults (lost, invalid, late, jump, same value, instant, stale datagram, ready-at-timeout race) x 10x6x7 (sync, initial, time-out) configurations (sync 1..65535 s incl. 1, 2, 3, odd values; time-out 0..65535 ms) x reference==backup / distinct / absent, reboots; the real SystemClockLoop is checked call by call against the A.2 spec machine and a control clock, then a fault-free drain must reach a successful sync within the back-off bound.',
         'note': 'Trusted: shim, scripted SimRefClock/SimRtc stubs, the A.2 model. loop() sees the unwrapped 64-bit counter (no 32-bit multilib here); a defect that needs 32-bit unsigned long arithmetic is not observable.',
         'design': '§5.C14, Appendix A.2',
     },
